@@ -294,9 +294,43 @@ def compare(inv: ref_config.Inventory, built: Dict, res: CaseResult) -> None:
             continue
         if k in inv.must or k in inv.alt:
             continue
+        if (k[0] == "folderdur" and k[3] in inv.folder_defaults and ("node", k[1]) in inv.must
+                and not inv._free_host(k[1])):  # nodes a node set creates: whether defaults reach them is undocumented
+            # a folder the file does not list (root, software folders created at install, ...): the schema has no
+            # per-folder duration, so the declared default - 0 included - is the value it must hold
+            want, where, dk = inv.folder_defaults[k[3]]
+            if v != want:
+                res.violate(f"defaults-not-applied:{where}:{dk}:undeclared-folder",
+                            f"{k}: the {where}-level defaults block says {dk}: {want}, folder {k[2]!r} of {k[1]} (not "
+                            f"listed in the file) holds {v}")
+            continue
         if inv.allowed_extra(k):
             continue
         res.violate(f"extra:{_sig_key(k, inv, built)}", f"{k} = {v!r} is in the built simulation but not in the file")
+
+
+def probe_runtime_folder(game, inv: ref_config.Inventory, res: CaseResult) -> None:
+    """A folder created after the build through the documented request gets the declared default durations too."""
+    for node in game.simulation.network.nodes.values():
+        h = node.config.hostname
+        if ("node", h) not in inv.must or inv._free_host(h) or node.operating_state.name != "ON":
+            continue
+        try:
+            resp = game.simulation.apply_request(["network", "node", h, "file_system", "create", "folder", "c20_probe"])
+        except Exception as e:
+            res.violate(f"raise:create-folder-after-load:{exc_sig(e)}", f"{h}: {exc_msg(e)}")
+            return
+        fo = node.file_system.get_folder("c20_probe")
+        if resp.status != "success" or fo is None:
+            continue
+        res.label("runtime-folder-probe")
+        for d, (want, where, dk) in inv.folder_defaults.items():
+            got = int(fo.scan_duration if d == "scan" else fo.restore_duration)
+            if got != want:
+                res.violate(f"defaults-not-applied:{where}:{dk}:folder-created-at-run-time",
+                            f"{h}: folder created by request after the build holds {d}_duration {got}, the {where}-level "
+                            f"defaults block says {dk}: {want}")
+        return
 
 
 def check_nodeset(ns: Dict, built: Dict, res: CaseResult) -> None:
@@ -585,6 +619,8 @@ def run_case(case: Dict) -> CaseResult:
     built = c20_read.read(game)
     compare(inv, built, res)
     res.label("oracleA")
+    if inv.folder_defaults:
+        probe_runtime_folder(game, inv, res)
 
     # Oracle B
     if case.get("perm") is not None or case.get("style"):
